@@ -593,6 +593,12 @@ func genScenario(r *vlib.Rand, big bool) []Step {
 			if r.Chance(1, 3) {
 				j = 1
 			}
+			if r.Chance(1, 5) {
+				// jitter at or above the interval (inside the documented domain, see directedJitter): delays that are
+				// not positive fire at once
+				iv = int64(r.Range(0, 3))
+				j = iv + int64(r.Range(0, 2))
+			}
 			if big {
 				iv *= int64(time.Millisecond)
 				j *= int64(time.Millisecond) / 2
@@ -1248,6 +1254,12 @@ func TestVerif(t *testing.T) {
 	for _, d := range directedDeadline() {
 		for i := 0; i < d.reps; i++ {
 			x.do(d.c, "directed-deadline")
+		}
+	}
+	// directed pass (deterministic, every run): jitter above / equal to the interval, interval 0 (jitter_test.go)
+	for _, d := range directedJitter() {
+		for i := 0; i < d.reps; i++ {
+			x.do(d.c, "directed-jitter")
 		}
 	}
 	deadline := env.Deadline()
